@@ -295,6 +295,33 @@ func main() {
 			c.Violate("golden", "golden:udp-payload:decode", fmt.Sprintf("UDPPacket payload %q of the released protocol decodes to %q err=%v", gv.enc, got, err), gv.enc)
 		}
 	}
+	// (1c) the size bound is on the JSON body: every body of up to 10240 bytes encodes and decodes, 10241 is refused
+	for pad := 10100; pad <= 10260; pad++ {
+		m := &msg.Login{User: strings.Repeat("u", pad)}
+		body, _ := json.Marshal(m)
+		if len(body) < 10225 || len(body) > 10243 {
+			continue
+		}
+		c.Count(fmt.Sprintf("boundary:%d", len(body)))
+		var buf bytes.Buffer
+		err := msg.WriteMsg(&buf, m)
+		if len(body) <= 10240 {
+			if err != nil {
+				c.Violate("roundtrip", "boundary:encode", fmt.Sprintf("a message whose JSON body has %d bytes (<= 10240, accepted by every decoder) cannot be encoded: %v", len(body), err), len(body))
+				continue
+			}
+			got, _, _, derr, p := safeRead(buf.Bytes())
+			if p != nil || derr != nil {
+				c.Violate("roundtrip", "boundary:decode", fmt.Sprintf("a message whose JSON body has %d bytes does not decode: err=%v panic=%v", len(body), derr, p), len(body))
+			} else if l, ok := got.(*msg.Login); !ok || l.User != m.User {
+				c.Violate("roundtrip", "boundary:value", fmt.Sprintf("a message whose JSON body has %d bytes decodes to a different value", len(body)), len(body))
+			}
+		} else if err == nil {
+			if _, _, _, derr, _ := safeRead(buf.Bytes()); derr == nil {
+				c.Violate("bound", "boundary:oversize", fmt.Sprintf("a frame with a %d-byte body was decoded, the bound is 10240", len(body)), len(body))
+			}
+		}
+	}
 	// (1) wire stability
 	seenTypes := map[byte]bool{}
 	for _, g := range gs {
